@@ -18,7 +18,7 @@ checks); the flusher publishes record.sector before dropping the in-memory value
 resolve_record_value answer `None` (re-resolve) and resolve_value retries a bounded number of times from a fresh index
 read; only the reviewed functions call read_sectors_sync. Not decided: which value a racing read returns.
 """
-DECIDED = ['retirement marks and frees exactly the blocks the generation was allocated (shared with C05.len)', "pin -> load sector -> pread under the pin -> identity check before use", "reader count protocol (retired bit, CAS, Drop)",
+DECIDED = ['blocks handed back to the allocator do not stay reserved by the entry that held them (shared with C09.contain/release_allocations, scrub-release)', 'retirement marks and frees exactly the blocks the generation was allocated (shared with C05.len)', "pin -> load sector -> pread under the pin -> identity check before use", "reader count protocol (retired bit, CAS, Drop)",
            "retirement waits for readers", "publish sector before clearing the value", "stale reads re-resolve, bounded",
            "a range scan re-resolves a stale handle by the entry's own key and from the entry's own slot",
            'acquire_extent tests the retired bit on the value each compare-exchange attempt is based on; no refusal after an installed change of the reader count']
@@ -284,7 +284,17 @@ def check_extent_len(ctx):
     C05.check_len(ctx, "C08.extent-len")
 
 
+def check_reservations(ctx):
+    """blocks handed back to the allocator must not stay reserved by the entry that held them: a requeued entry that keeps the
+    sector number writes its record into blocks the allocator has meanwhile given to another key - two live generations share an
+    extent, no retirement ever happened, so no extent guard is consulted, and the overwritten key answers StaleExtent for ever
+    (same rules as C09.contain/release_allocations and scrub-release)"""
+    from rules import C09
+    C09.check_scrub(ctx, "C08.reservation")
+
+
 def check(ctx):
+    check_reservations(ctx)
     check_extent_len(ctx)
     check_range_resolve(ctx)
     check_acquire(ctx)
